@@ -2,3 +2,9 @@ import PeptVerif.Props.C04Mass
 #print axioms C04.neutral_adjustment_is_zero
 #print axioms C04.tables_agree
 #print axioms C04.frag_mass_eq_mass
+#print axioms C04.label_tables_ok
+#print axioms C04.isotope_substitution_linear
+#print axioms C04.label_path_decomposes
+#print axioms C04.frag_mass_eq_mass_labelled
+#print axioms C04.label_shift_needs_charge
+#print axioms C04.label_offset_charge_step_ne_proton
